@@ -1498,6 +1498,54 @@ func (m *Model) openCleanupOnlyNew(r *Results, rule string, fn *ssa.Function) {
 			if pol, exact := versPred(m.newTermEval().term(st.Val, st, m.closureFrame(st.Parent()))); pol == 1 && exact {
 				under = true
 			}
+			// `vers, isNew, err = bucket.openSchema(...)`: the flag is a helper's result that can be true
+			// only on the helper's paths through "schema version == 0"
+			{
+				v := stripConv(st.Val)
+				idx := 0
+				if ex, ok := v.(*ssa.Extract); ok {
+					v, idx = ex.Tuple, ex.Index
+				}
+				if call, ok := v.(*ssa.Call); ok {
+					if h := call.Common().StaticCallee(); h != nil && m.inPkg(h) && len(h.Blocks) > 0 {
+						hfr := m.closureFrame(st.Parent()).inline(call, h)
+						c := m.versCutIn(h, hfr, true, false)
+						reach := entryReach(h, c)
+						okAll := len(c.edges) > 0
+						for _, ret := range returnsOf(h) {
+							if idx >= len(ret.Results) {
+								okAll = false
+								continue
+							}
+							var check func(rv ssa.Value, blk *ssa.BasicBlock, depth int)
+							check = func(rv ssa.Value, blk *ssa.BasicBlock, depth int) {
+								switch x := rv.(type) {
+								case *ssa.Const:
+									if x.Value != nil && constant.BoolVal(x.Value) && reach[blk.Index] {
+										okAll = false
+									}
+								case *ssa.Phi:
+									if depth > 3 {
+										okAll = false
+										return
+									}
+									for i, e := range x.Edges {
+										check(e, x.Block().Preds[i], depth+1)
+									}
+								default:
+									if reach[blk.Index] {
+										okAll = false
+									}
+								}
+							}
+							check(ret.Results[idx], ret.Block(), 0)
+						}
+						if okAll {
+							under = true
+						}
+					}
+				}
+			}
 			for _, ct2 := range controllingConds(st.Parent(), st.Block()) {
 				if versZeroTaken(ct2, st.Parent()) {
 					under = true
